@@ -166,6 +166,60 @@ def h_history(eng, which, first, second):
         eng.prove(Eq(a[2], b[2]), f"history:{first}>{second}:factor")
 
 
+_CHILD_CASEI = r"""
+import json, logging, sys
+import pint
+logging.disable(logging.CRITICAL)
+u = pint.UnitRegistry()
+out = {}
+for s in sys.argv[1:]:
+    try:
+        out[s] = [u.get_name(s, False), str(u.parse_units(s, case_sensitive=False)), [list(t) for t in u.parse_unit_name(s, False)][:1]]
+    except Exception as ex:
+        out[s] = type(ex).__name__
+print(json.dumps(out))
+"""
+
+
+def h_case_insensitive_across_processes(eng):
+    """(concrete) a case-insensitive look-up gives the same reading in every process -- spellings
+    that differ only in case (b / B, ...) are candidates in an order that must not follow string
+    hash randomisation -- and a spelling written in its exact case keeps its exact reading"""
+    import json
+    import os
+    import subprocess
+    import sys
+
+    strings = ["kb", "kB", "Kb", "KB", "mb", "mB", "Mb", "MB", "gb", "GB", "ub", "kbs", "pa", "PA", "mpa", "MPA", "kh", "KH", "mh", "kt", "KT", "mt", "MT", "kc", "KC", "mc", "kg", "KG", "ml", "ML", "kpa", "ha", "HA", "kPa", "mT", "MHz"]
+
+    def run(seed):
+        env = dict(os.environ, PYTHONPATH="/repo", PYTHONHASHSEED=str(seed))
+        r = subprocess.run([sys.executable, "-c", _CHILD_CASEI] + strings, capture_output=True, text=True, env=env, timeout=300)
+        if r.returncode != 0:
+            return {"error": r.stderr.strip().splitlines()[-1:] or ["?"]}
+        return json.loads(r.stdout.strip().splitlines()[-1])
+
+    runs = {seed: run(seed) for seed in (0, 2, 3, 4, 5, 7, 11, 12)}
+    ref = runs[0]
+    eng.prove("error" not in ref, "casei-across-processes:child-works")
+    for s_ in strings:
+        answers = {json.dumps(r.get(s_)) for r in runs.values()}
+        if len(answers) != 1:
+            eng.fail(f"casei-across-processes:{s_}:reading-depends-on-the-hash-seed", detail=" / ".join(sorted(answers))[:300], stop=False)
+        else:
+            eng.prove(True, f"casei-across-processes:{s_}:same-reading")
+    # exact-case spellings keep their case-sensitive reading
+    import pint
+
+    ureg = pint.UnitRegistry()
+    for s_ in ("kB", "mb", "MB", "Mb", "kPa", "mT", "MHz"):
+        exact = ureg.get_name(s_)
+        for seed, r in runs.items():
+            got = r.get(s_) if s_ in r else None
+            if got is not None and not isinstance(got, str):
+                eng.prove(got[0] == exact, f"casei-across-processes:{s_}:exact-case-spelling-keeps-its-reading:seed={seed}")
+
+
 def h_late_prefix(eng, which, form):
     """a prefix that arrives through define()/load_definitions() after the registry has been used:
     every spelling is then read as by a registry that had the line from the start"""
@@ -521,6 +575,7 @@ def cases(tier, seed):
     for which in ("A", "B"):
         for a, b in pairs:
             out.append(Case("H08.b", f"{which}:{a}>{b}", M, "h_history", {"which": which, "first": a, "second": b}, opts=opts, validate=0))
+    out.append(Case("H08.c", "case-insensitive-across-processes", M, "h_case_insensitive_across_processes", {}, kind="conc"))
     for which in ("A", "B"):
         for form in ("define", "load_definitions"):
             out.append(Case("H08.b", f"late-prefix:{which}:{form}", M, "h_late_prefix", {"which": which, "form": form}, opts=opts, validate=1))
